@@ -44,7 +44,7 @@ def handleC08 : List String → Option String
     let lims ← (lims.splitOn ",").mapM String.toNat?
     let rs := lims.map fun l => s!"{l}={outcome (m.toWire l pt)}"
     some ("ok " ++ " ".intercalate rs)
-  | "c08.robj" :: ms :: res :: pad :: osz :: tsz :: hm :: rest => do
+  | "c08.robj" :: ms :: res :: pad :: osz :: tsz :: hm :: xf :: rest => do
     -- the Renderer object route: [reserve] add_question/add_rrset… [release_reserved] add_opt(pad, opt_size, tsig_size)
     -- write_header add_tsig/add_multi_tsig [write_header]
     let m ← parseMsgTokens rest
@@ -54,14 +54,35 @@ def handleC08 : List String → Option String
     let osz ← osz.toNat?
     let tsz ← tsz.toNat?
     let hm ← hm.toNat?
+    let xf ← xf.toNat?
     let s0 := RState.init m.id m.flags ms m.origin
+    -- xf bit 1: a reserve() that cannot succeed comes first (the caller catches ValueError and carries on)
+    let (s0, tr0) : RState × List String :=
+      if xf % 2 = 1 then
+        (match s0.reserve (ms + 1 + osz) with
+          | .ok s => (s, ["res:ok"])
+          | .error e => (s0, ["res:err:" ++ e.toString]))
+      else (s0, [])
     let s1 : Except RErr RState :=
       if res = 1 then (match s0.reserve osz with | .ok s => s.reserve tsz | .error e => .error e) else .ok s0
     match s1 with
     | .error e => some ("err " ++ e.toString)
     | .ok s =>
-      let (s, tr) := stepsGo s m.items []
+      let (s, tr) := stepsGo s m.items tr0
+      -- xf bit 4: an add that goes back to an earlier section (FormError, nothing changes)
+      let (s, tr) : RState × List String :=
+        if xf / 4 % 2 = 1 ∧ s.sec > 1 then
+          (match m.an.head? with
+            | none => (s, tr)
+            | some r =>
+              match s.addRRset 1 r with
+              | .ok s' => (s', tr ++ [s!"ooo:ok:{s'.out.length}"])
+              | .tooBig s' => (s', tr ++ [s!"ooo:big:{s'.out.length}"])
+              | .err e => (s, tr ++ ["ooo:err:" ++ e.toString]))
+        else (s, tr)
       let s := if res = 1 then s.releaseReserved else s
+      -- xf bit 2: release_reserved() a second time
+      let s := if xf / 2 % 2 = 1 then s.releaseReserved else s
       let (s, tr) := match m.opt with
         | none => (s, tr)
         | some o =>
